@@ -202,6 +202,13 @@ def gen_c04(r, tier):
         if entry != 'string' and r.chance(0.35):
             a['stamp'] = r.weighted([(3, 'same'), (1, 'ref_newer'),
                                      (1, 'actual_newer')])
+        if r.chance(0.15):
+            # the failure artefacts cannot be written (temp dir gone, full
+            # or read-only): whatever else happens, a difference must not
+            # turn into a pass
+            a['fault'] = {'kind': r.pick(['enospc', 'eacces', 'eio',
+                                          'short_write']),
+                          'site': r.randint(0, 2), 'short': r.randint(0, 12)}
         if r.chance(0.45):
             t = r.pick(fault_targets)
             a['storage_fault'] = dict(gen_storage_fault(r, None),
@@ -376,6 +383,15 @@ def gen_c10(r, tier):
                                'short': r.randint(0, 12)}
                 if tier == 'thorough' and r.chance(0.5):
                     op['fault']['enumerate'] = True
+                if r.chance(0.4):
+                    # armed in regeneration mode too: the write of the new
+                    # reference is interrupted; the user then tries again
+                    op['fault']['in_regen'] = True
+                    op['fault']['site'] = r.randint(0, 1)
+                    ops.append(op)
+                    op = copy.deepcopy(op)
+                    del op['fault']
+                    op['retry_after_failed_write'] = True
             elif r.chance(0.1):
                 op['read_fault'] = {'kind': 'read_eio'}
             ops.append(op)
@@ -419,6 +435,12 @@ def gen_c15(r, tier):
         if 'actual_files' in op and r.chance(0.08):
             # the program under test did not produce its output file
             op['actual_missing'] = True
+        elif r.chance(0.15):
+            # I/O error while the failure artefacts are being written
+            op['fault'] = {'kind': r.pick(['enospc', 'eacces', 'eio',
+                                           'short_write']),
+                           'site': r.randint(0, 3),
+                           'short': r.randint(0, 12)}
         # reuse names so that artefacts of earlier ops are overwritten
         if r.chance(0.3) and ops:
             prev = r.pick(ops)
@@ -898,6 +920,7 @@ def run_assert(ctx, op):
                 with io.open(target[j], 'rb') as fh:
                     pristine = (target[j], fh.read())
             sf_fired = apply_storage_fault(ctx, sf, target[j])
+    age_world(ctx)
     apply_stamp(ctx, op, rpaths, apaths)
     mode = ctx.model.lookup(op['kind'])
     roots = [W.path(d) for d in ('ref', 'fail', 'systmp', 'cwd', 'canary',
@@ -905,7 +928,8 @@ def run_assert(ctx, op):
     before = fsaudit.snapshot(roots)
     fault = None
     read_fault = None
-    if mode is False and op.get('fault'):
+    if op.get('fault') and (mode is False or (
+            mode is True and op['fault'].get('in_regen'))):
         f = op['fault']
         fault = {'kind': f['kind'], 'site': f['site'],
                  'errno': ERRNO[f['kind']],
@@ -970,10 +994,24 @@ def run_assert(ctx, op):
                 check_c04(ctx, op, o2, e2, rpaths, apaths, fired)
     elif prop == 'C15':
         check_c15(ctx, op, mode, outcome, exc, delta, log, rpaths, apaths,
-                  before, after)
+                  before, after, fired)
 
 
 STAMP0 = 1600000000
+
+
+def age_world(ctx):
+    """The simulator owns the file clock: everything that exists when an
+    assertion starts is old (a fixed time in the past), so that whether a
+    rewrite with identical content shows as 'touched' never depends on how
+    many real milliseconds separate two writes."""
+    for dirpath, dirnames, filenames in os.walk(ctx.W.root):
+        for f in filenames:
+            try:
+                os.utime(os.path.join(dirpath, f), (STAMP0 - 1000,
+                                                    STAMP0 - 1000))
+            except OSError:
+                pass
 
 
 def apply_stamp(ctx, op, rpaths, apaths):
@@ -1084,7 +1122,15 @@ def check_c10(ctx, op, mode, outcome, exc, delta, log, fired, rpaths, apaths,
             ctx.stats['probes']['normal_mode_missing_reference'] += 1
         return
     # regenerating (True) or maybe
-    allowed = set(rpaths)
+    if fired:
+        # the write of the new reference was interrupted by an I/O error:
+        # nothing is promised about this attempt (nor about what a careful
+        # writer leaves next to the reference), everything about the next
+        ctx.stats['probes']['regeneration_interrupted_by_io_error'] += 1
+        ctx.debris = getattr(ctx, 'debris', set()) | {
+            p for p, c in ref_delta if c == 'created' and p not in rpaths}
+        return
+    allowed = set(rpaths) | getattr(ctx, 'debris', set())
     bad = [(p, c) for p, c in ref_delta if p not in allowed]
     if bad:
         violation(ctx, op, 'regen-only-own-reference', opk,
@@ -1097,6 +1143,8 @@ def check_c10(ctx, op, mode, outcome, exc, delta, log, fired, rpaths, apaths,
     else:
         ctx.stats['checks']['regen_mode_assertions'] += 1
         ctx.nontrivial = True
+        if op.get('retry_after_failed_write'):
+            ctx.stats['probes']['regeneration_retried_after_io_error'] += 1
         if outcome != 'pass':
             violation(ctx, op, 'regen-completes',
                       '%s/%s' % (opk, exc_tag(exc) if outcome == 'error'
@@ -1106,6 +1154,8 @@ def check_c10(ctx, op, mode, outcome, exc, delta, log, fired, rpaths, apaths,
             return
         written = {p for c, p in log if c.startswith('open:')
                    and any(m in c for m in 'wax+')}
+        # written elsewhere and moved into place counts as written
+        written |= {p for c, p in log if c in ('rename', 'replace')}
         for p in rpaths:
             changed = any(q == p for q, _ in ref_delta)
             if not (p in written or changed):
@@ -1224,7 +1274,7 @@ CMD_RE = re.compile(r'^\s+(diff|cp|fc|copy|tdda diff)\s+(\S+)\s+(\S+)\s*$',
 
 
 def check_c15(ctx, op, mode, outcome, exc, delta, log, rpaths, apaths,
-              before, after):
+              before, after, fired=()):
     W = ctx.W
     if mode is not False:
         return
@@ -1247,19 +1297,25 @@ def check_c15(ctx, op, mode, outcome, exc, delta, log, rpaths, apaths,
                       'writes=%r' % ([(W.rel(p), c) for p, c in delta],
                                      [(c, W.rel(p)) for c, p in writes]))
         return
-    if outcome == 'error':
-        ctx.stats['abstain']['assertion_raised_non_assertion_error'] += 1
-        return
-    ctx.stats['checks']['failing_assertions_audited'] += 1
-    # nothing outside the configured temp dir
+    # nothing outside the configured temp dir (also when writing the
+    # artefacts hit an I/O error and the assertion ended in OSError)
     outside = [(p, c) for p, c in delta if not p.startswith(tmp + os.sep)]
     outside_w = [(c, p) for c, p in writes if not p.startswith(tmp + os.sep)]
     if outside or outside_w:
-        violation(ctx, op, 'writes-outside-tmp-dir', entry,
+        violation(ctx, op, 'writes-outside-tmp-dir',
+                  entry + ('/io-error' if fired else ''),
                   'failing assertion wrote outside tmp_dir %s: delta=%r '
                   'writes=%r' % (W.rel(tmp),
                                  [(W.rel(p), c) for p, c in outside],
                                  [(c, W.rel(p)) for c, p in outside_w]))
+    if outcome == 'error':
+        ctx.stats['abstain']['assertion_raised_non_assertion_error'] += 1
+        return
+    ctx.stats['checks']['failing_assertions_audited'] += 1
+    if fired:
+        # the artefacts could not be written: their content is not promised
+        ctx.stats['abstain']['artefact_write_failed'] += 1
+        return
     msg = str(exc)
     if op.get('actual_missing'):
         # there is no actual to compare or to copy: only the audit above
